@@ -1,4 +1,7 @@
 import BreezyVerif.Lemmas.C01
+import BreezyVerif.Lemmas.C01Path
+import BreezyVerif.Lemmas.C01Closure
+import BreezyVerif.Lemmas.C01Pipe
 /-!
 C01 — a commit records exactly the selected working-tree state.
 
@@ -6,13 +9,19 @@ Theorems about `Model/C01.lean` (all trees, all selections, all exclusion
 lists, all id lists — no bound on sizes):
 
 * inventory trees: `commitTree_get`, `commit_selected`, `commit_unselected`,
-  `commit_wf`, `commit_paths_selected`, `commit_all`, `commit_only_changed`,
-  `commit_excluded_untouched`, `status_after_commit`,
-  `closure_insufficient_witness`;
-* git trees: `git_written`, `git_untouched`, `git_deleted`;
-* pipeline with a fault: `commit_abort_noop_partial`, `commit_no_fault`, and
-  the two witnesses of the part of the statement the code does not satisfy
-  (`late_fault_leaves_revision_witness`, `late_fault_moves_tip_witness`).
+  `commit_wf`, `commit_paths_selected`, `commit_paths_prefix` (the same in terms
+  of the path prefix relation, for well-formed trees), `commit_all`,
+  `commit_only_changed`, `commit_ids_justified` (what else the delta-consistency
+  closure may record), `commit_excluded_untouched`, `status_after_commit`,
+  `commit_merge_refused`, `commit_merge_all`, `closure_insufficient_witness`,
+  `closure_diverges_witness`, `commit_never_fuel`, `commit_full_total`,
+  `selected_path_carried_witness`;
+* git trees: `git_written`, `git_untouched`, `git_deleted`, `git_selected`,
+  `git_unselected`;
+* pipeline over a write group with a fault at any point: `commit_abort_noop_partial`,
+  `publish_ordered`, `commit_no_fault`, and the witnesses of the part of the
+  statement the code does not satisfy (`late_fault_leaves_revision_witness`,
+  `late_fault_moves_tip_witness`, `late_fault_master_ahead_witness`).
 -/
 namespace BreezyVerif.C01
 open BreezyVerif.C10
@@ -256,6 +265,149 @@ example : insideOpt [["a"]] (pathOf exBasis "g") = true ∧
      | .ok r => some r.ids
      | .error _ => none) = some ["m"] := by decide +kernel
 
+/-- **selected paths, in terms of paths**: for well-formed trees, every id whose
+basis path or working path is at or below one of the paths passed as
+`specific_files` (prefix relation on path components) and whose paths are not
+excluded has its working entry in the new revision.  This does not mention the
+model's own `selectIds`; `minimum_path_selection` is accounted for. -/
+theorem commit_paths_prefix (v : Validation) (basis : Tree) (w : WT) (f : List Path) (excl : List Path)
+    (r : Result) (h : commitModel v basis w (some f) excl = .ok r)
+    (hb : wf basis = true) (hw : wf w.inv = true)
+    (hm : ∀ i ∈ w.missing, get basis i ≠ get w.inv i)
+    (i : Id) (p q : Path) (hp : p ∈ f) (hq : pathOf basis i = some q ∨ pathOf w.inv i = some q) (hpre : p <+: q)
+    (h1 : insideOpt excl (pathOf basis i) = false) (h2 : insideOpt excl (pathOf w.inv i) = false) :
+    get r.tree i = get (effective w) i := by
+  obtain ⟨p', hp', hpre'⟩ := minSel_prefix f p.length p (Nat.le_refl _) hp
+  apply commit_paths_selected v basis w (some f) excl r h hm i _ h1 h2
+  show i ∈ selectIds basis w.inv (minSel f)
+  rcases hq with hq | hq
+  · exact selectIds_of_prefix_src hb hp' hq (hpre'.trans hpre)
+  · exact selectIds_of_prefix_tgt hw hp' hq (hpre'.trans hpre)
+
+/-- **nothing else, part 3**: besides the ids at or below the selected paths, a
+partial commit records only ids *pulled in* by the delta-consistency closure:
+working-tree ancestors of recorded entries, basis entries displaced from the
+working path of such an ancestor, and basis children of an entry that stopped
+being a directory (`Pulled`) — and of those only the really changed, non-excluded
+ones (`commit_only_changed`). -/
+theorem commit_ids_justified (v : Validation) (basis : Tree) (w : WT) (f : List Path) (excl : List Path)
+    (r : Result) (h : commitModel v basis w (some f) excl = .ok r) (i : Id) (hi : i ∈ r.ids) :
+    i ∈ selectIds basis w.inv (minSel f) ∨ Pulled basis w.inv (selectIds basis w.inv (minSel f)) i := by
+  obtain ⟨cs, hcs, hf⟩ := commitModel_ok h
+  rw [(commitFrom_ok hf).2.2.1, mem_commitIds] at hi
+  obtain ⟨c, hc, _, hid⟩ := hi
+  have := filtered_ids_justified true .generic basis w.inv (minSel f) true cs hcs c hc
+  rwa [hid] at this
+
+/-- pending merges: a selection or an exclusion is refused -/
+theorem commit_merge_refused (v : Validation) (basis : Tree) (w : WT) (sel : Option (List Path)) (excl : List Path)
+    (h : sel ≠ none ∨ excl ≠ []) : commitModelM true v basis w sel excl = .error .selectedFileMerge := by
+  unfold commitModelM
+  rcases h with h | h
+  · cases sel with
+    | none => exact absurd rfl h
+    | some f => simp
+  · cases excl with
+    | nil => exact absurd rfl h
+    | cons a b => simp
+
+/-- pending merges: a commit that succeeds is a full commit and records the whole
+working tree -/
+theorem commit_merge_all (v : Validation) (basis : Tree) (w : WT) (sel : Option (List Path)) (excl : List Path)
+    (r : Result) (h : commitModelM true v basis w sel excl = .ok r)
+    (hm : ∀ i ∈ w.missing, get basis i ≠ get w.inv i) (i : Id) :
+    sel = none ∧ excl = [] ∧ get r.tree i = get (effective w) i := by
+  unfold commitModelM at h
+  cases sel with
+  | some f => simp at h
+  | none =>
+    cases excl with
+    | cons a b => simp at h
+    | nil =>
+      simp at h
+      exact ⟨rfl, rfl, commit_all v basis w r h hm i⟩
+
+example : (match commitModelM true .strict exBasis exWt (some [["b"]]) [] with
+     | .ok _ => none
+     | .error e => some e) = some CErr.selectedFileMerge ∧
+    (match commitModelM true .strict exBasis exWt none [] with
+     | .ok r => some r.ids
+     | .error _ => none) = some ["f", "g", "m"] := by decide +kernel
+
+/-- a full commit (no selection) does not depend on the closure at all -/
+theorem commit_full_total (v : Validation) (basis : Tree) (w : WT) (excl : List Path) :
+    commitModel v basis w none excl = commitFrom v basis w (commitIds excl (changesOf basis w.inv)) := by
+  simp [commitModel, reportedChanges, iterChangesG]
+
+/-- **the model always has a prediction**: the delta-consistency closure (as
+repaired by /repo e6ca8fc) terminates on every pair of trees — well-formed or
+not —, every selection and every exclusion list, so `fuel` is never answered -/
+theorem commit_never_fuel (v : Validation) (basis : Tree) (w : WT) (sel : Option (List Path)) (excl : List Path) :
+    commitModel v basis w sel excl ≠ .error .fuel := by
+  have hf := fixed_loop_terminates .generic basis w.inv (sel.map minSel) false true
+  unfold commitModel reportedChanges
+  intro h
+  split at h
+  · cases h
+  · rename_i heq; rw [heq] at hf; simp [isFuel] at hf
+  · unfold commitFrom at h
+    simp only at h
+    split at h
+    · cases h
+    · split at h <;> cases h
+
+/-- **Witness (termination of `_handle_precise_ids` as found, repaired by /repo
+e6ca8fc)**: on a well-formed pair of trees the delta-consistency closure of the
+unrepaired loop never terminates, whatever the fuel (the real generator yielded
+the same record for ever, `brz status -r1..2 a/f/g` never returned): `a` renamed
+to `z`, `d` renamed to `a`, and the file `a/f` moved into the unchanged
+directory `d/f`, which now sits at `a/f` — the loop keeps finding the moved file
+at the directory's new path and the directory as the moved file's new parent.
+The repaired loop terminates and gives a consistent partial commit. -/
+theorem closure_diverges_witness :
+    wf loopSrc = true ∧ wf loopTgt = true ∧
+    (∀ n, preciseLoop loopSrc loopTgt n loopStart = none) ∧
+    isFuel (iterChanges .generic loopSrc loopTgt (some [["a", "f", "g"]]) false true) = true ∧
+    (match commitModel .strict loopSrc ⟨loopTgt, []⟩ (some [["a", "f", "g"]]) [] with
+     | .error _ => none
+     | .ok r => some (r.ids, wf r.tree)) = some (["G", "D", "A"], true) :=
+  ⟨by decide +kernel, by decide +kernel, preciseLoop_diverges, by decide +kernel, by decide +kernel⟩
+
+def kBasis : Tree :=
+  [("r", ⟨none, "", .dir⟩), ("c", ⟨some "r", "c", .dir⟩), ("a", ⟨some "c", "a", .dir⟩), ("b", ⟨some "a", "b", .file "1" false⟩)]
+def kWt : WT :=
+  ⟨[("r", ⟨none, "", .dir⟩), ("c", ⟨some "r", "c", .dir⟩), ("a", ⟨some "c", "b", .dir⟩), ("b", ⟨some "a", "b", .file "1" false⟩)], []⟩
+
+/-- **Witness (the "path" part of the statement is not met for carried entries)**:
+`c/a` renamed to `c/b`, its child `c/a/b` untouched; `commit(specific_files=["c/b/b"])`
+records nothing — the selected entry is unchanged in id space and its moved
+parent is neither selected nor needed by a recorded entry — so the selected
+working path `c/b/b` does not exist in the new revision (the entry stays at
+`c/a/b`).  `commit_paths_agree` covers recorded entries only. -/
+theorem selected_path_carried_witness :
+    wf kBasis = true ∧ wf kWt.inv = true ∧
+    "b" ∈ selectIds kBasis kWt.inv (minSel [["c", "b", "b"]]) ∧
+    pathOf kWt.inv "b" = some ["c", "b", "b"] ∧
+    (match commitModel .strict kBasis kWt (some [["c", "b", "b"]]) [] with
+     | .ok r => some (r.ids, pathOf r.tree "b")
+     | .error _ => none) = some ([], some ["c", "a", "b"]) := by decide +kernel
+
+/-! non-vacuity of `commit_paths_prefix` and `commit_ids_justified`: a new file in
+a new directory, only the file selected — the directory is pulled in -/
+
+def jBasis : Tree := [("r", ⟨none, "", .dir⟩)]
+def jWt : WT := ⟨[("r", ⟨none, "", .dir⟩), ("D", ⟨some "r", "d", .dir⟩), ("f", ⟨some "D", "f", .file "1" false⟩)], []⟩
+
+example : wf jBasis = true ∧ wf jWt.inv = true ∧ pathOf jWt.inv "f" = some ["d", "f"] ∧
+    (match commitModel .strict jBasis jWt (some [["d", "f"]]) [] with
+     | .ok r => some r.ids
+     | .error _ => none) = some ["f", "D"] ∧
+    "D" ∉ selectIds jBasis jWt.inv (minSel [["d", "f"]]) := by decide +kernel
+
+example : Pulled jBasis jWt.inv (selectIds jBasis jWt.inv (minSel [["d", "f"]])) "D" :=
+  Pulled.seed (x := "f") (r := ⟨"f", none, some ["d", "f"], true, none, some ⟨some "D", "f", .file, false⟩⟩)
+    (by decide +kernel) (by decide +kernel) (by decide +kernel) (by decide +kernel)
+
 /-! ### git trees -/
 
 /-- a path the kept changes write carries the working content -/
@@ -313,48 +465,284 @@ example :
       [⟨some ["a"], some ["b"]⟩, ⟨some ["d", "x"], some ["d", "x"]⟩] (some [["b"]]) []
       = [(["b"], .file "1" false), (["d", "x"], .file "1" false)] := by decide +kernel
 
+/-- **selected paths (git)**: a path of the working tree at or below a selected
+path and not excluded carries the working content in the new revision, provided
+the reported change list is complete (`gCovers`) and coherent (`gCoherent`) and
+no record moves an excluded path onto it (such a record is dropped as a whole
+by `filter_excluded`) -/
+theorem git_selected (basis wt : GTree) (cs : List GChange) (sel : Option (List Path)) (excl : List Path)
+    (p : Path) (n : Node) (hwt : glookup wt p = some n)
+    (hcov : gCovers basis wt cs = true) (hcoh : gCoherent wt cs = true)
+    (hsel : ∀ f, sel = some f → insideAny f p = true) (hex : insideAny excl p = false)
+    (hold : ∀ c ∈ cs, c.new = some p → insideOpt excl c.old = false) :
+    glookup (gitCommitTree basis wt cs sel excl) p = some n := by
+  have hsome : (glookup wt p).isSome = true := by simp [hwt]
+  have hkeep : ∀ c ∈ cs, c.new = some p → gKeep sel excl c = true := by
+    intro c hc hn
+    unfold gKeep
+    have h1 : insideOpt excl c.new = false := by rw [hn]; exact hex
+    rw [hold c hc hn, h1]
+    cases sel with
+    | none => simp
+    | some f =>
+      have := hsel f rfl
+      simp only [insideAny, List.any_eq_true] at this
+      obtain ⟨g, hg, hgp⟩ := this
+      have : relatedOpt f c.new = true := by
+        rw [hn]
+        simp only [relatedOpt, insideOrParentOfAny, List.any_eq_true]
+        exact ⟨g, hg, by simp [hgp]⟩
+      simp [this]
+  by_cases hw : p ∈ gWritten wt (cs.filter (gKeep sel excl))
+  · rw [git_written basis wt cs sel excl p hw, hwt]
+  · -- not written: no record names `p` as its new path, so the content is unchanged
+    have hno : ∀ c ∈ cs, c.new ≠ some p := by
+      intro c hc hn
+      exact hw (mem_gWritten (List.mem_filter.mpr ⟨hc, hkeep c hc hn⟩) hn hsome)
+    have hsame : glookup basis p = glookup wt p := by
+      obtain ⟨x, hx, hxp⟩ := glookup_mem hwt
+      unfold gCovers at hcov
+      rw [List.all_eq_true] at hcov
+      have := hcov x hx
+      rw [hxp] at this
+      simp only [Bool.or_eq_true, beq_iff_eq, List.any_eq_true] at this
+      rcases this with h | ⟨c, hc, hn⟩
+      · exact h
+      · exact absurd hn (hno c hc)
+    have hnd : p ∉ gDeleted (cs.filter (gKeep sel excl)) := by
+      intro hd
+      unfold gDeleted at hd
+      rw [List.mem_filterMap] at hd
+      obtain ⟨c, hc, ho⟩ := hd
+      have hc' := (List.mem_filter.mp hc).1
+      unfold gCoherent at hcoh
+      rw [List.all_eq_true] at hcoh
+      have := hcoh c hc'
+      rw [ho] at this
+      simp only [Bool.or_eq_true, beq_iff_eq, Option.isNone_iff_eq_none] at this
+      rcases this with h | h
+      · exact hno c hc' h
+      · rw [hwt] at h; cases h
+    rw [git_untouched basis wt cs sel excl p hw hnd, hsame, hwt]
+
+/-- **nothing else (git)**: a path no kept record names keeps its basis content -/
+theorem git_unselected (basis wt : GTree) (cs : List GChange) (sel : Option (List Path)) (excl : List Path)
+    (p : Path) (h : ∀ c ∈ cs, c.old = some p ∨ c.new = some p → gKeep sel excl c = false) :
+    glookup (gitCommitTree basis wt cs sel excl) p = glookup basis p := by
+  apply git_untouched
+  · intro hw
+    obtain ⟨⟨c, hc, hn⟩, _⟩ := mem_gWritten_iff.mp hw
+    have := List.mem_filter.mp hc
+    rw [h c this.1 (Or.inr hn)] at this
+    exact absurd this.2 (by simp)
+  · intro hd
+    unfold gDeleted at hd
+    rw [List.mem_filterMap] at hd
+    obtain ⟨c, hc, ho⟩ := hd
+    have := List.mem_filter.mp hc
+    rw [h c this.1 (Or.inl ho)] at this
+    exact absurd this.2 (by simp)
+
+/-! non-vacuity: `a` renamed to `b` (selected), `d/x` modified (selected through
+its directory), `e` modified (not selected) -/
+
+def gB : GTree := [(["a"], .file "1" false), (["d", "x"], .file "1" false), (["e"], .file "1" false)]
+def gW : GTree := [(["b"], .file "1" false), (["d", "x"], .file "2" true), (["e"], .file "2" false)]
+def gC : List GChange := [⟨some ["a"], some ["b"]⟩, ⟨some ["d", "x"], some ["d", "x"]⟩, ⟨some ["e"], some ["e"]⟩]
+
+example : gCovers gB gW gC = true ∧ gCoherent gW gC = true ∧ insideAny [["b"], ["d"]] ["d", "x"] = true ∧
+    insideAny [] ["d", "x"] = false ∧
+    gitCommitTree gB gW gC (some [["b"], ["d"]]) [] =
+      [(["b"], .file "1" false), (["d", "x"], .file "2" true), (["e"], .file "1" false)] ∧
+    (∀ c ∈ gC, c.old = some ["e"] ∨ c.new = some ["e"] → gKeep (some [["b"], ["d"]]) [] c = false) := by
+  decide +kernel
+
 /-! ### the pipeline with a fault -/
 
-/-- **abort is a no-op** (the part of the statement that holds): an exception
-raised at any stage up to and including `builder.commit` leaves the visible
-revisions, the tip and the tree basis unchanged and the write group closed.
-*Partial*: for the later stages the statement is false, see the witnesses. -/
-theorem commit_abort_noop_partial (new : Rev) (st : Stage) (s : PState) (h : insideTry st = true) :
-    (runCommit new (some st) s).2 = true ∧
-    visible (runCommit new (some st) s).1 = visible s ∧
-    (runCommit new (some st) s).1.basis = s.basis ∧
-    (runCommit new (some st) s).1.inGroup = false ∧ (runCommit new (some st) s).1.pending = [] := by
-  cases st <;>
-    simp_all [insideTry, Stage.idx, runCommit, runStages, stages, stageEffect, abortGroup, visible]
+/-- **abort is a no-op** (the part of the statement that holds), for any number
+of texts, bound or not: a fault raised at *any* point before the write group
+is committed — before or after the effect of any operation from the first
+recorded text up to `add_revision`, or before `start_write_group` — makes the
+commit raise and leaves the *whole* state as it was: visible revisions,
+inventories and texts, the tip, the master branch, the tree basis; the write
+group is closed and nothing is pending.
+*Partial*: for the later fault points the statement is false, see the witnesses. -/
+theorem commit_abort_noop_partial (new : Rev) (texts : List Key) (bound : Bool) (s : PState) (f : Fault)
+    (hc : s.clean = true) (hk : f.executed ≤ (groupOps texts).length + 1) (h0 : ¬ (f.k = 0 ∧ f.after = true)) :
+    runCommit new texts bound (some f) s = (s, true) := by
+  have hkk : f.k ≤ f.executed := by unfold Fault.executed; split <;> omega
+  have hlen : f.k < (program texts bound).length := by
+    rw [program_length, lateOps_length]; split <;> omega
+  unfold runCommit
+  simp only [hlen, if_true]
+  by_cases hz : f.k = 0
+  · have ha : f.after = false := by
+      cases h : f.after with
+      | false => rfl
+      | true => exact absurd ⟨hz, h⟩ h0
+    have he : f.executed = 0 := by simp [Fault.executed, ha, hz]
+    simp [he, inTry, hz]
+  · have ht : inTry texts f.k = true := by
+      simp only [inTry, Bool.and_eq_true, decide_eq_true_eq]
+      omega
+    simp only [ht, if_true]
+    rw [abort_foldl_group new _ s (take_group texts bound hk), abort_clean hc]
 
-example : insideTry .finishInv = true ∧ insideTry .builderCommit = true ∧ insideTry .preHook = false := by decide
+example : (⟨[], [], [], [], [], [], false, none, [], none, none⟩ : PState).clean = true ∧
+    (⟨4, true⟩ : Fault).executed ≤ (groupOps ["t1", "t2"]).length + 1 ∧
+    (program ["t1", "t2"] true)[4]? = some Op.addInv := by decide
 
-/-- **Witness (property violated, DESIGN §7-F6)**: an exception from a
-`pre_commit` hook or from `set_last_revision_info` is raised after
-`builder.commit()`: the commit raises, the tip is unchanged, but the new
-revision is visible in the repository. -/
-theorem late_fault_leaves_revision_witness (new : Rev) (st : Stage) (s : PState)
-    (h : st = .preHook ∨ st = .setTip) :
-    (runCommit new (some st) s).2 = true ∧ (runCommit new (some st) s).1.tip = s.tip ∧
-    (runCommit new (some st) s).1.revs = s.revs ++ [new] := by
-  rcases h with h | h <;> subst h <;>
-    simp [runCommit, runStages, stages, stageEffect, insideTry, Stage.idx]
+/-- what can be observed at a fault point about the new revision -/
+structure Ordered (new : Rev) (texts : List Key) (bound : Bool) (r : PState) : Prop where
+  inv_iff : new ∈ r.revs ↔ new ∈ r.invs
+  texts_of_rev : new ∈ r.revs → ∀ t ∈ texts, t ∈ r.texts
+  tip_rev : r.tip = some new → new ∈ r.revs
+  basis_tip : r.basis = some new → r.tip = some new
+  master_rev : r.mtip = some new → new ∈ r.revs ∧ new ∈ r.mrevs
+  master_first : bound = true → r.tip = some new → r.mtip = some new
 
-/-- **Witness**: an exception from `update_basis_by_delta` or a `post_commit`
-hook is raised after the tip moved: the commit raises with the branch already
-at the new revision (and, for `update_basis_by_delta`, the tree basis behind). -/
-theorem late_fault_moves_tip_witness (new : Rev) (st : Stage) (s : PState)
-    (h : st = .updateBasis ∨ st = .postHook) :
-    (runCommit new (some st) s).2 = true ∧ (runCommit new (some st) s).1.tip = some new ∧
-    new ∈ (runCommit new (some st) s).1.revs := by
-  rcases h with h | h <;> subst h <;>
-    simp [runCommit, runStages, stages, stageEffect, insideTry, Stage.idx]
+theorem ordered_late (new : Rev) (texts : List Key) (bound : Bool) (s : PState)
+    (hn : s.tip ≠ some new ∧ s.basis ≠ some new ∧ s.mtip ≠ some new) (j : Nat) :
+    Ordered new texts bound (((lateOps bound).take j).foldl (effect new) (published new texts s)) ∧
+    (((lateOps bound).take j).foldl (effect new) (published new texts s)).clean = s.clean := by
+  obtain ⟨h1, h2, h3⟩ := hn
+  cases s
+  cases bound <;> rcases j with _ | _ | _ | _ | _ | _ | _ | _ | j <;>
+    (refine ⟨⟨?_, ?_, ?_, ?_, ?_, ?_⟩, ?_⟩ <;>
+      simp_all [lateOps, effect, published, PState.clean])
 
-/-- without a fault the revision becomes visible, then the tip and the tree
-basis move to it -/
-theorem commit_no_fault (new : Rev) (s : PState) :
-    runCommit new none s =
-      ({ revs := s.revs ++ [new], pending := [], inGroup := false, tip := some new, basis := some new }, false) := by
-  simp [runCommit, runStages, stages, stageEffect]
+/-- **publication is atomic and ordered, at every fault point** (any operation,
+before or after its effect, bound or not, any number of texts, or no fault):
+the new revision is visible exactly when its inventory is, and then all its
+texts are; the tip names it only when it is visible; the tree basis names it
+only after the tip does; a master branch is updated before the local tip. -/
+theorem publish_ordered (new : Rev) (texts : List Key) (bound : Bool) (s : PState) (fault : Option Fault)
+    (hc : s.clean = true) (hr : new ∉ s.revs) (hi : new ∉ s.invs)
+    (hn : s.tip ≠ some new ∧ s.basis ≠ some new ∧ s.mtip ≠ some new) :
+    Ordered new texts bound (runCommit new texts bound fault s).1 := by
+  have hbase : ∀ t : PState, t.revs = s.revs → t.invs = s.invs → t.tip = s.tip → t.basis = s.basis →
+      t.mtip = s.mtip → Ordered new texts bound t := by
+    intro t a b c d e
+    refine ⟨by rw [a, b]; simp [hr, hi], by rw [a]; intro h; exact absurd h hr, by rw [c]; intro h; exact absurd h hn.1,
+      by rw [d]; intro h; exact absurd h hn.2.1, by rw [e]; intro h; exact absurd h hn.2.2,
+      by rw [c]; intro _ h; exact absurd h hn.1⟩
+  have hfull : Ordered new texts bound ((program texts bound).foldl (effect new) s) := by
+    have := take_late new texts bound s hc (lateOps bound).length
+    rw [List.take_of_length_le (by rw [program_length]; omega), List.take_of_length_le (Nat.le_refl _)] at this
+    rw [this]
+    have := (ordered_late new texts bound s hn (lateOps bound).length).1
+    rwa [List.take_of_length_le (Nat.le_refl _)] at this
+  unfold runCommit
+  cases fault with
+  | none => exact hfull
+  | some f =>
+    simp only
+    split
+    · -- the fault fires
+      by_cases he : f.executed ≤ (groupOps texts).length + 1
+      · -- before publication: only the write group was touched
+        have hg := abort_foldl_group new _ s (take_group texts bound he)
+        have hv : ∀ t : PState, abortGroup t = abortGroup s → Ordered new texts bound t ∧ Ordered new texts bound (abortGroup t) := by
+          intro t ht
+          have e1 : t.revs = s.revs := by have := congrArg PState.revs ht; simpa [abortGroup] using this
+          have e2 : t.invs = s.invs := by have := congrArg PState.invs ht; simpa [abortGroup] using this
+          have e3 : t.tip = s.tip := by have := congrArg PState.tip ht; simpa [abortGroup] using this
+          have e4 : t.basis = s.basis := by have := congrArg PState.basis ht; simpa [abortGroup] using this
+          have e5 : t.mtip = s.mtip := by have := congrArg PState.mtip ht; simpa [abortGroup] using this
+          exact ⟨hbase t e1 e2 e3 e4 e5, hbase _ e1 e2 e3 e4 e5⟩
+        split
+        · exact (hv _ hg).2
+        · exact (hv _ hg).1
+      · -- after publication
+        obtain ⟨j, hj⟩ : ∃ j, f.executed = (groupOps texts).length + 2 + j := ⟨f.executed - ((groupOps texts).length + 2), by omega⟩
+        rw [hj, take_late new texts bound s hc j]
+        obtain ⟨ho, hcl⟩ := ordered_late new texts bound s hn j
+        split
+        · rw [abort_clean (by rw [hcl]; exact hc)]; exact ho
+        · exact ho
+    · exact hfull
+
+example : (⟨["r0"], ["r0"], [], [], [], [], false, some "r0", ["r0"], some "r0", some "r0"⟩ : PState).clean = true ∧
+    (runCommit "new" ["t"] true (some ⟨9, false⟩) ⟨["r0"], ["r0"], [], [], [], [], false, some "r0", ["r0"], some "r0", some "r0"⟩)
+      = (⟨["r0", "new"], ["r0", "new"], ["t"], [], [], [], false, none.orElse (fun _ => some "r0"), ["r0", "new"], some "new", some "r0"⟩, true) := by
+  decide +kernel
+
+theorem inTry_late (texts : List Key) (j : Nat) : inTry texts ((groupOps texts).length + 2 + j) = false := by
+  simp only [inTry, Bool.and_eq_false_iff, decide_eq_false_iff_not]
+  right; omega
+
+/-- **Witness (property violated, DESIGN §7-F6)**: an exception raised after
+`builder.commit()` and before the local tip is written — by a `pre_commit` hook,
+by the update of the master branch, or by `set_last_revision_info` itself —
+makes the commit raise with the tip unchanged, but the new revision (with its
+inventory and texts) is visible in the repository. -/
+theorem late_fault_leaves_revision_witness (new : Rev) (texts : List Key) (bound : Bool) (s : PState) (j : Nat)
+    (hc : s.clean = true) (hj : j ≤ if bound then 2 else 1) :
+    (runCommit new texts bound (some ⟨(groupOps texts).length + 2 + j, false⟩) s).2 = true ∧
+    (runCommit new texts bound (some ⟨(groupOps texts).length + 2 + j, false⟩) s).1.tip = s.tip ∧
+    (runCommit new texts bound (some ⟨(groupOps texts).length + 2 + j, false⟩) s).1.revs = s.revs ++ [new] := by
+  have hlen : (groupOps texts).length + 2 + j < (program texts bound).length := by
+    rw [program_length, lateOps_length]; split <;> simp_all <;> omega
+  have hnt := inTry_late texts j
+  unfold runCommit
+  simp only [hlen, if_true, hnt, Fault.executed, Bool.false_eq_true, if_false]
+  rw [take_late new texts bound s hc j]
+  cases s
+  cases bound <;> rcases j with _ | _ | _ | j <;> simp_all [lateOps, effect, published] <;> omega
+
+/-- **Witness**: for a bound branch an exception from the local
+`set_last_revision_info` is raised when the master branch already has the new
+revision as its tip: the commit raises, the local tip is unchanged, the master
+moved. -/
+theorem late_fault_master_ahead_witness (new : Rev) (texts : List Key) (s : PState) (hc : s.clean = true) :
+    (runCommit new texts true (some ⟨(groupOps texts).length + 4, false⟩) s).2 = true ∧
+    (runCommit new texts true (some ⟨(groupOps texts).length + 4, false⟩) s).1.tip = s.tip ∧
+    (runCommit new texts true (some ⟨(groupOps texts).length + 4, false⟩) s).1.mtip = some new := by
+  have hlen : (groupOps texts).length + 4 < (program texts true).length := by
+    rw [program_length, lateOps_length]; simp
+  have hnt : inTry texts ((groupOps texts).length + 4) = false := inTry_late texts 2
+  unfold runCommit
+  simp only [hlen, if_true, hnt, Fault.executed, Bool.false_eq_true, if_false]
+  rw [show (groupOps texts).length + 4 = (groupOps texts).length + 2 + 2 by omega, take_late new texts true s hc 2]
+  cases s
+  simp_all [lateOps, effect, published]
+
+/-- **Witness**: an exception raised once the tip is written (by
+`update_basis_by_delta`, a `post_commit` hook, …) makes the commit raise with
+the branch already at the new revision. -/
+theorem late_fault_moves_tip_witness (new : Rev) (texts : List Key) (bound : Bool) (s : PState) (j : Nat) (after : Bool)
+    (hc : s.clean = true) (hj : (if bound then 3 else 2) ≤ (if after then j + 1 else j))
+    (hl : j < (lateOps bound).length) :
+    (runCommit new texts bound (some ⟨(groupOps texts).length + 2 + j, after⟩) s).2 = true ∧
+    (runCommit new texts bound (some ⟨(groupOps texts).length + 2 + j, after⟩) s).1.tip = some new ∧
+    new ∈ (runCommit new texts bound (some ⟨(groupOps texts).length + 2 + j, after⟩) s).1.revs := by
+  have hlen : (groupOps texts).length + 2 + j < (program texts bound).length := by
+    rw [program_length]; omega
+  have hnt := inTry_late texts j
+  have hex : (Fault.mk ((groupOps texts).length + 2 + j) after).executed =
+      (groupOps texts).length + 2 + (if after then j + 1 else j) := by
+    unfold Fault.executed; cases after <;> simp <;> omega
+  unfold runCommit
+  simp only [hlen, if_true, hnt, Bool.false_eq_true, if_false, hex]
+  rw [take_late new texts bound s hc]
+  rw [lateOps_length] at hl
+  cases s
+  cases bound <;> cases after <;> rcases j with _ | _ | _ | _ | _ | _ | _ | j <;>
+    simp_all [lateOps, effect, published] <;> omega
+
+/-- without a fault the revision, its inventory and its texts become visible,
+then the master (bound branches), the tip and the tree basis move to it -/
+theorem commit_no_fault (new : Rev) (texts : List Key) (bound : Bool) (s : PState) (hc : s.clean = true) :
+    runCommit new texts bound none s =
+      ({ s with revs := s.revs ++ [new], invs := s.invs ++ [new], texts := s.texts ++ texts, tip := some new,
+                basis := some new, mrevs := if bound then s.mrevs ++ [new] else s.mrevs,
+                mtip := if bound then some new else s.mtip }, false) := by
+  have := take_late new texts bound s hc (lateOps bound).length
+  rw [List.take_of_length_le (by rw [program_length]; omega), List.take_of_length_le (Nat.le_refl _)] at this
+  unfold runCommit
+  simp only
+  rw [this]
+  cases s
+  cases bound <;> simp_all [lateOps, effect, published]
 
 end BreezyVerif.C01
